@@ -106,6 +106,9 @@ M = [
  ('mailto-quote-safe', H, "            data.append(f'{delim}{key}={quote(val.encode(\"utf-8\"))}')", "            data.append(f'{delim}{key}={quote(val.encode(\"utf-8\"), safe=\"/&\")}')", ['C16']),
  ('wifi-password-unescaped', H, "        data += f'P:{escape(password)};'", "        data += f'P:{password};'", ['C16']),
  ('geo-precision-6', H, "        return f'{f:.8f}'.rstrip('0').rstrip('.')", "        return f'{f:.6f}'.rstrip('0').rstrip('.')", ['C16']),
+ ('make-qr-drops-boost', I, "                encoding=encoding, eci=eci, micro=False, boost_error=boost_error)", "                encoding=encoding, eci=eci, micro=False)", ['C05', 'C14']),
+ ('make-micro-drops-mask', I, "    return make(content, error=error, version=version, mode=mode, mask=mask,\n                encoding=encoding, micro=True, boost_error=boost_error)", "    return make(content, error=error, version=version, mode=mode,\n                encoding=encoding, micro=True, boost_error=boost_error)", ['C14', 'C06']),
+ ('make-swaps-eci-micro', I, "                                 eci, micro, boost_error=boost_error))", "                                 eci and not micro, micro, boost_error=boost_error))", ['C14', 'C01']),
  ('epc-level-boost', H, "                       error='m', boost_error=False)", "                       error='m')", ['C16']),
 ]
 EXTRA = {'colormap-module-level': (W, "def _is_two_colored(colormap):", "_PPM_CACHE = {}\n\n\ndef _is_two_colored(colormap):")}
